@@ -8,7 +8,7 @@ HOOK_COMMITS = ["57c9cc3"]
 CHECKS = {
  "C01": ("exploration", "bounded-exhaustive enumeration of packet values (per-field whole domains over two baselines) through the real encoder and decoder, both directions",
          "Every Gen case (73 kinds x B0/B1 x every field's bounded domain: all 8-bit values, 16-bit boundary sets in quick / whole 16-bit domains in thorough, 32-bit boundary + byte-lane sets, every enumerant, flag subsets, all nibble pairs, counts 0..max, list-element value sweeps at the first and at the last position, MAL/IPB element values, text) x both size modes is encoded, decoded and re-encoded: typed->wire->typed equality (Debug) and wire->typed->wire byte identity on every frame the encoder produced. Decoder-independent typed values cover the hand-written reader/writer pairs (ConInfo nibbles, SmallType durations, CimMode, RaceLaps, Fuel, Vehicle, allowed cars, multi-codepage MSO), every counted kind at 0, 1, 2 and the maximum number of elements in both modes, and in-width multi-codepage text in all 30 text fields.",
-         "Field combinations beyond one-field-sweeps over two baselines are not explored; typed values of the Gen site come from decoding in-domain specification frames.", "DESIGN.md §4 C01", "E1"),
+         "Beyond one-field sweeps, all pairs of fields (top level and inside one list element) are explored over boundary values, every enumerant and flag bit (thorough: whole bytes); triples are not; typed values of the Gen site come from decoding in-domain specification frames.", "DESIGN.md §4 C01", "E1"),
  "C02": ("model_checking",
          "bounded-exhaustive enumeration of an explicit layout model (spec table) with full conformance replay through the real codec",
          "Model = an independent transcription of the InSim v9 / relay layouts (spec/insim_v9.spec) with a table-driven reference encoder. Every value of every field's specification domain (every enumerant, flag bit / subset, boundary integers, whole 8/16-bit domains in the thorough tier, text, counts 0..max) x 2 baselines x 2 size modes is replayed through Codec::decode and Codec::encode and compared field by field and byte by byte. A deviation shared by reader and writer, which round-trips and passes every unit test, is caught because the oracle is independent of the Rust declarations.",
@@ -18,10 +18,10 @@ CHECKS = {
          "Every encoder output is checked to be exactly one well-formed frame (multiple of 4, within the mode limit, right size byte, right count byte, decodes completely to the same kind, leaves a successor intact). Inputs: all Gen packets obtained by decoding specification frames, element counts 0..=255 for the seven counted kinds (legal ones must succeed with the specification length, oversize ones must be refused, never wrapped), texts of every length 0..=2N in all 30 text fields, every decoder-accepted 1-byte mutation of every reference frame, MSO frames with every TextStart and high-byte fill, and a marker / double-byte corpus of MSO messages with every TextStart (re-encode must not abort).",
          "Refusal may be Err or panic for hand-built packets; only panics on decoder-produced packets are violations.", "DESIGN.md §4 C03", "E1"),
  "C04": ("exploration", "deviation-bounded exhaustive enumeration of byte buffers against a reference framing model",
-         "All 65536 (size,type) headers x fills x lengths, every 1-byte mutation (all 256 values) of every reference frame of every kind, 2-byte mutations of structure bytes (all values) and of any two of the first 12 bytes (alphabet, thorough), adjacent-pair mutations over all 65536 values (inside every string-valued field in quick, everywhere in thorough), every truncation, all short buffers over a 16-symbol alphabet, in both modes: no panic, need-more leaves the buffer untouched, exactly the announced frame (>= 4 bytes) is removed, verdict independent of following bytes, successor frame intact.",
+         "All 65536 (size,type) headers x fills x lengths, every 1-byte mutation (all 256 values) of every reference frame of every kind, 2-byte mutations of structure bytes (all values) and of any two of the first 12 bytes (alphabet, thorough), adjacent-pair mutations over all 65536 values (inside every string-valued field in quick, everywhere in thorough), every text field filled with repeated markers / resets / double-byte units to its end (text storms), every truncation, all short buffers over a 16-symbol alphabet, in both modes: no panic, need-more leaves the buffer untouched, exactly the announced frame (>= 4 bytes) is removed, verdict independent of following bytes, successor frame intact.",
          "Byte strings at mutation distance > 2 from valid frames and longer than 8 bytes over the full byte alphabet are outside the bound.", "DESIGN.md §4 C04", "E1"),
  "C10": ("model_checking", "exhaustive exploration of the code-page automaton (all state x character transitions, all table cells, all short strings) against reference tables",
-         "The encoder/decoder are automata over the current code page. All (state, character) transitions over the union repertoire of the ten Windows pages (reference tables from CPython's codecs) plus characters in no page, every single-byte table cell, agreement ratios of every double-byte table against every reference, every double-byte character with trail byte 0x5E followed by every marker, every repertoire character followed by every page switch / reserved character in every state, all strings <= 4/5 over class representatives, all byte strings <= 4/5 over 22 decoder-relevant symbols (BOM shapes, markers, lead/trail bytes) and all ASCII strings <= 3 are checked.",
+         "The encoder/decoder are automata over the current code page. All (state, character) transitions over the union repertoire of the ten Windows pages (reference tables from CPython's codecs) plus characters in no page, every single-byte table cell, agreement ratios of every double-byte table against every reference, every double-byte character with trail byte 0x5E followed by every marker, every repertoire character followed by every page switch / reserved character in every state, all strings <= 5/6 over class representatives (incl. double-byte characters with caret-like and lead-like trail bytes, '8', 'L'), all byte strings <= 4/5 over 22 decoder-relevant symbols (BOM shapes, markers, lead/trail bytes), units repeated up to 130 times (long strings) and all ASCII strings <= 3 are checked.",
          "Reference tables are CPython's cp125x/cp932/cp936/cp949/cp950; DBCS tables compared by agreement ratio; private-use mappings excluded.", "DESIGN.md §4 C10", "E1"),
  "C11": ("exploration", "bounded-exhaustive enumeration of strings (lengths 0..2N, six families) in every text field, located by specification offsets",
          "For all 30 text-bearing fields: fixed fields occupy exactly N bytes = truncate-then-NUL-pad of the encoded text; variable fields are NUL-padded multiples of 4 within the maximum; MST/MSX/MSL/MTC end in NUL for every string; decoding stops at the first NUL (also for hand-built field contents); both size modes; the SMX track field.",
@@ -42,7 +42,7 @@ CHECKS = {
          "All strings <= 6/7 over a 13-symbol alphabet (no panic, watchdog for non-termination, print-reparse equality, letter case-insensitivity), all 8-byte wire forms of LFS's shape through the VER codec, all ordered pairs of parsed versions (antisymmetry, consistency with ==, number-letter-revision rule) and all triples of a stratified subset (transitivity).",
          "A 20 s per-case watchdog stands in for a step budget.", "DESIGN.md §4 C16", "E1"),
  "C17": ("fault_enumeration", "exhaustive enumeration of truncation points, single-byte substitutions and hostile count values over generated and shipped files",
-         "Generated PTH/SMX files with all count combinations 0..=2 and NaN/extreme payloads plus the shipped files: byte-exact write(parse(f)), stable re-parse; every strict prefix rejected; every single-byte substitution of files < 200 B parses without panic and within an allocation bound (counting allocator); every count field x 7 hostile values in a child process under RLIMIT_AS; from_file/from_pathbuf agree with read.",
+         "Generated PTH/SMX files with all count combinations 0..=2 and NaN/extreme payloads, every count 0..=8192 (quick) / 40000 (thorough) in each count field on its own, plus the shipped files: byte-exact write(parse(f)), stable re-parse; every strict prefix rejected; every single-byte substitution of files < 200 B parses without panic and within an allocation bound (counting allocator); every count field x 7 hostile values in a child process under RLIMIT_AS; from_file/from_pathbuf agree with read.",
          "Truncation of the 926 kB shipped SMX is exhaustive only at both ends (quadratic cost).", "DESIGN.md §4 C17", "E1"),
 }
 
@@ -68,7 +68,7 @@ CHECKS.update(E2_CHECKS)
 HOOK_COMMITS.append("1b683f3")
 
 CHECKS["C08"] = ("model_checking", "explicit-state search over (receive buffer, spare capacity, adaptor buffer) with every transition executed on real loopback UDP sockets in lock-step",
-         "States are the connection's buffer/spare-capacity/adaptor-buffer triples reached by datagram histories (both adaptors, both modes); actions are datagrams of 6-16 compositions (1..255 packets, 4..1020 bytes) and bursts of 2-3 datagrams queued before the connection reads; every spare-capacity value (multiples of 4 from 6120 down to 0 and across the reclaim) is reached and every composition is tried in it; oracle: the packets read equal the frames of the datagram just sent; every kind's packet (both modes, up to the largest counted frames) leaves as exactly one datagram holding its frame.",
+         "States are the connection's buffer/spare-capacity/adaptor-buffer triples reached by datagram histories (both adaptors, both modes); actions are datagrams of 6-16 compositions (1..255 packets, 4..1020 bytes) bursts of 2-3 datagrams queued before the connection reads, and a transient socket error (port unreachable) in any state; every spare-capacity value (multiples of 4 from 6120 down to 0 and across the reclaim) is reached and every composition is tried in it; oracle: the packets read equal the frames of the datagram just sent; every kind's packet (both modes, up to the largest counted frames) leaves as exactly one datagram holding its frame.",
          "Loopback UDP, one datagram or one burst in flight; 400 ms search watchdog, witnesses re-confirmed with a 2 s watchdog.", "DESIGN.md §4 C08", "E2")
 
 CHECKS["C18"] = ("model_checking", "explicit-state search over all reachable states of the real Builder (setter histories replayed on fresh objects) against a reference builder, plus loopback connects",
